@@ -12,7 +12,7 @@ import (
 )
 
 // Positions lists every expression position.
-var Positions = []string{"where", "project", "extend", "extend-unnamed", "summarize-agg", "summarize-key", "sort", "top", "take", "let", "join-on", "join-on-nested"}
+var Positions = []string{"where", "project", "extend", "extend-unnamed", "summarize-agg", "summarize-key", "sort", "top", "take", "let", "let-chain", "join-on", "join-on-nested"}
 
 // build wraps the surface expression into a program for the position.
 func Build(pos string, sx *E) *Program {
@@ -45,6 +45,15 @@ func Build(pos string, sx *E) *Program {
 		return Query("T", &Op{K: "take", X: sx})
 	case "let":
 		return &Program{Stmts: []*Stmt{{LetName: id("v"), LetX: sx}, {Pipe: &Pipe{Table: Ident{Name: "T"}, Ops: []*Op{{K: "extend", Cols: []Col{{Name: id("r"), X: Name("v")}}}}}}}}
+	case "let-chain":
+		// the value sits between lets of other shapes (signed, string,
+		// parenthesised before; signed after): nothing of theirs may reach it
+		let := func(n string, x *E) *Stmt { return &Stmt{LetName: id(n), LetX: x} }
+		return &Program{Stmts: []*Stmt{
+			let("z0", Un("-", Num("1"))), let("z1", StrLit("q", false)), let("z2", Un("+", Num("2"))),
+			let("v", sx),
+			let("z3", Un("-", Num("3"))),
+			{Pipe: &Pipe{Table: Ident{Name: "T"}, Ops: []*Op{{K: "extend", Cols: []Col{{Name: id("r"), X: Name("v")}}}}}}}}
 	case "join-on":
 		return Query("T", &Op{K: "join", Kind: "inner", Right: &Pipe{Table: Ident{Name: "U"}}, Conds: []*E{sx}})
 	case "join-on-nested":
@@ -95,7 +104,7 @@ func Locate(pos string, st *sqlmini.Stmt) (*sqlmini.X, string) {
 		return sel.Where, ""
 	case "project", "project-name":
 		return item(0)
-	case "extend", "extend-unnamed", "let":
+	case "extend", "extend-unnamed", "let", "let-chain":
 		return item(1)
 	case "summarize-agg":
 		return item(1)
